@@ -1,6 +1,7 @@
 import Rpft.Drv.Json
 import Rpft.Bulk
-namespace Rpft.Drv
+namespace Rpft.Drv.BulkD
+open Rpft.Drv
 open Lean Rpft Rpft.Bulk
 
 /-- `[[key, value], …]` -/
@@ -89,4 +90,4 @@ def handleBulk (op : String) (j : Json) : Except String Json := do
       | .error e => pure (Json.mkObj [("err", bulkErrJ e)])
   | _ => throw s!"unknown op {op}"
 
-end Rpft.Drv
+end Rpft.Drv.BulkD
